@@ -8,7 +8,7 @@ MUT = {
  "apr3": ("C12", "spine/feature_local.go", "	timer.Stop()\n", "	_ = timer\n", "timer not stopped after the verdict: the timeout error follows an applied write"),
  "apr4": ("C12", "spine/feature_local.go", "		delete(r.pendingWriteApprovals[ski], *msg.RequestHeader.MsgCounter)\n		r.muxResponseCB.Unlock()\n\n		err := model.NewErrorTypeFromString(\"write not approved in time by application\")", "		r.muxResponseCB.Unlock()\n\n		err := model.NewErrorTypeFromString(\"write not approved in time by application\")", "timeout does not forget the pending write: a late verdict still applies it"),
  "apr5": ("C12", "spine/feature_local.go", "	for _, cb := range r.writeApprovalCallbacks {\n		go cb(msg)", "	for _, cb := range r.writeApprovalCallbacks[:1] {\n		go cb(msg)", "only the first callback is asked"),
- "apr6": ("C12", "spine/feature_local.go", "	newTimer := time.AfterFunc(r.writeTimeout, func() {", "	newTimer := time.AfterFunc(r.writeTimeout/2, func() {", "timeout fires after half the configured time"),
+ "apr6": ("C12", "spine/feature_local.go", "	newTimer := time.AfterFunc(writeTimeout, func() {", "	newTimer := time.AfterFunc(writeTimeout/2, func() {", "timeout fires after half the configured time"),
  "apr7": ("C12", "spine/feature_local.go", "	if err.ErrorNumber == 0 {\n		r.processWrite(msg)\n		return\n	}\n\n	_ = msg.FeatureRemote.Device().Sender().ResultError(msg.RequestHeader, r.Address(), &err)", "	if err.ErrorNumber == 0 {\n		r.processWrite(msg)\n		return\n	}\n", "a denial sends no error result (the write stays without outcome)"),
  # ---- C16
  "hbt1": ("C16", "spine/heartbeat_manager.go", "	if c.IsHeartbeatRunning() {\n		verifYield(\"StopHeartbeat.running\")\n		close(c.stopHeartbeatC)", "	if !c.IsHeartbeatRunning() {\n		verifYield(\"StopHeartbeat.running\")\n		close(c.stopHeartbeatC)", "inverted running check in StopHeartbeat"),
